@@ -326,15 +326,21 @@ def lookupIn (k : Nat) : List (Nat × E) → Option E
 def lookupK (k : Nat) : Option E := lookupIn k Gen.funsK
 def lookupFun (key : String) : Option E := lookupK (keyCode key)
 
+/-- The `fn_args` that `FunctionRelation::update` builds for a node: wells from `find_wells`,
+factor list from `setFactors` (with the node type from `SummaryConfig`), step length. -/
+def nodeCtx [Scalar α] (gs : List (GroupIn α)) (ws : List (WellIn α)) (cat : Cat)
+    (node : String) (key : String) (dt : α) : Ctx α :=
+  { wells := findWells gs ws cat node,
+    efac := efacLookup ((setFactors gs cat (configIsTotal key) node (findWells gs ws cat node)).getD []),
+    dt := dt }
+
 /-- `FunctionRelation::update` without the final store: the SI value and its unit tag. -/
 def nodeValue [Scalar α] (gs : List (GroupIn α)) (ws : List (WellIn α)) (cat : Cat)
     (node : String) (key : String) (dt : α) : Option (α × String) :=
   match lookupFun key with
   | none => none
   | some e =>
-    let wells := findWells gs ws cat node
-    let fac := (setFactors gs cat (configIsTotal key) node wells).getD []
-    match evalE { wells := wells, efac := efacLookup fac, dt := dt } e, unitOf e with
+    match evalE (nodeCtx gs ws cat node key dt) e, unitOf e with
     | some v, some u => some (v, u)
     | _, _ => none
 
